@@ -179,6 +179,9 @@ theorem execOp_covWf (op : Op) (as : List (String × String)) (st : St) (hok : s
     · exact h.same (.error _ _)
   | error e => exact h.same (.error _ _)
   | data => exact h
+  | book b =>
+    have hb := book_same st b
+    exact h.same ⟨hb.2.2.2.2.1, hb.2.2.2.2.2.1, hb.2.2.2.2.2.2.1, hb.2.2.2.2.2.2.2.1⟩
 
 theorem execOps_covWf (ops : List Op) (as : List (String × String)) (hok : ops.all storeOk = true) :
     ∀ st : St, CovWf st → CovWf (execOps ops as st) := by
